@@ -1,5 +1,6 @@
 """C02 - emitted frames are exactly the reference ISO-15765-2 segmentation (campaign K2)."""
 import random
+from collections import Counter
 from core import *
 from gen import *
 from runner import Part, run_sharded
@@ -213,11 +214,108 @@ def run_shard(campaign, shard, nshards, seed, tier):
                     if d is not None:
                         part.violation('correspondence', campaign, 'corr:standby', 'model differs at op %d' % d, pr.case,
                                        {'impl_line': pr.lines[d], 'model_line': ml_[d], 'theorem_or_correspondence': THEOREMS})
+    elif campaign == 'duplex':
+        # the layer receives (complete messages, interrupted ones, garbage, stop_receiving(), reception timeouts) while it transmits:
+        # the data frames it emits are still exactly the reference segmentation of its own payloads
+        n = (120 if quick else 6000) // nshards + 1
+        for i in range(n):
+            tx_dl = rng.choice([8, 8, 8, 12, 16, 64])
+            mode = rng.choice(['Normal_11bits', 'Extended_29bits', 'Mixed_11bits', 'NormalFixed_29bits'])
+            a = rand_address(rng, mode)
+            params = {'tx_data_length': tx_dl, 'blocksize': rng.choice([0, 1, 2, 8]), 'stmin': 0,
+                      'rx_consecutive_frame_timeout': rng.choice([1000, 20])}
+            if tx_dl > 8:
+                params['can_fd'] = True
+            if rng.random() < 0.3:
+                params['tx_padding'] = 0x55
+            inst = {'txa': a, 'rxa': None, 'params': params}
+            setup_spec(m, inst)
+            rid, ext, pfx = reach(inst)
+            plen = len(pfx)
+            cf_cap = tx_dl - 1 - plen
+            payloads = [bytes(rng.getrandbits(8) for _ in range(rng.choice([tx_dl, 3 * cf_cap, 17 * cf_cap + 3, 40 * cf_cap]))) for _ in range(rng.randint(1, 2))]
+            bs = rng.choice([0, 1, 2, 5])
+            st = rng.choice([0, 0, 1])
+            pr = PeerRun([inst], links={0: 0})
+            for pl in payloads:
+                pr.send(0, hx(pl))
+            incoming = []          # frames of the peer's own message still to deliver
+            seen = 0
+            cf_since = 0
+            kinds = Counter()
+            for step in range(3000):
+                pr.proc(0)
+                new = pr.wire[0][seen:]
+                seen = len(pr.wire[0])
+                need_cts = False
+                for fr in new:
+                    d = unhx(fr[2])[plen:]
+                    t = d[0] >> 4
+                    if t == 1:
+                        need_cts, cf_since = True, 0
+                    elif t == 2:
+                        cf_since += 1
+                        if bs and cf_since >= bs:
+                            need_cts, cf_since = True, 0
+                if not pr.impl[0].layer.transmitting() and not incoming:
+                    break
+                r = rng.random()
+                if incoming and r < 0.6:
+                    pr.op(0, 'rx', rid, int(ext), hx(incoming.pop(0))); kinds['peer-frame'] += 1
+                elif r < 0.12:
+                    L = rng.choice([9, 20, 50])
+                    body = bytes(rng.getrandbits(8) for _ in range(L))
+                    incoming = [pfx + bytes([0x10 | (L >> 8), L & 0xFF]) + body[:6 - plen]]
+                    off, sn = 6 - plen, 1
+                    while off < L:
+                        incoming.append(pfx + bytes([0x20 | (sn & 0xF)]) + body[off:off + 7 - plen])
+                        off += 7 - plen; sn += 1
+                    if rng.random() < 0.3:
+                        incoming = incoming[:rng.randint(1, len(incoming))]      # abandoned
+                    kinds['peer-message'] += 1
+                elif r < 0.16:
+                    pr.op(0, 'rx', rid, int(ext), hx(pfx + bytes([0x03, 1, 2, 3]))); kinds['peer-sf'] += 1
+                elif r < 0.19:
+                    pr.op(0, 'rx', rid, int(ext), hx(pfx + bytes([rng.choice([0x40, 0xF0, 0x00])]))); kinds['garbage'] += 1
+                elif r < 0.22:
+                    pr.op(0, 'stop_receiving'); kinds['stop_receiving'] += 1
+                elif r < 0.25:
+                    pr.op(0, 'recv')
+                elif r < 0.28 and params['rx_consecutive_frame_timeout'] == 20:
+                    pr.tick_all(21 * 10**6); kinds['rx-timeout-tick'] += 1
+                if need_cts:
+                    pr.op(0, 'rx', rid, int(ext), hx(pfx + bytes([0x30, bs, st])))
+                elif not new:
+                    pr.tick_all(1000000)
+            pr.close()
+            got = [f for f in frames_of(pr) if (unhx(f.split(':')[5])[plen] >> 4) != 3]
+            exp = []
+            for pl in payloads:
+                exp += m.query('seg - ' + hx(pl)).split()
+            part.d['evaluations'] += 1
+            part.distinct(('duplex', tx_dl, mode, tuple(len(x) for x in payloads), bs, tuple(sorted(kinds.items()))))
+            part.hist('class', 'duplex/tx_dl=%d' % tx_dl)
+            for kk_, vv in kinds.items():
+                part.hist('duplex_interference', kk_, vv)
+            errs = [e for l in pr.lines for e in split_line(l)[0] if e.startswith('err:') and ('FlowControl' in e or 'Overflow' in e or 'Wait' in e)]
+            if got != exp and not errs:
+                kk = next((j for j in range(min(len(got), len(exp))) if got[j] != exp[j]), min(len(got), len(exp)))
+                part.violation('oracle', campaign, 'C02:frame-differs-from-reference-segmentation',
+                               'while receiving at the same time: data frame %d is %s, reference %s (emitted %d, reference %d)' % (
+                                   kk, got[kk] if kk < len(got) else None, exp[kk] if kk < len(exp) else None, len(got), len(exp)), pr.case)
+                continue
+            ml_ = m.run_case(pr.case)
+            part.d['traces_validated'] += 1
+            d = first_diff(pr.lines, ml_)
+            if d is not None:
+                part.violation('correspondence', campaign, 'corr:duplex', 'model differs at op %d' % d, {'insts': pr.case['insts'], 'ops': pr.case['ops'][:d + 1]},
+                               {'impl_line': pr.lines[d], 'model_line': ml_[d], 'theorem_or_correspondence': THEOREMS})
     return part.result()
 
 
 def run(ctx):
     run_sharded(ctx, 'C02', 'standby')
+    run_sharded(ctx, 'C02', 'duplex')
     run_sharded(ctx, 'C02', 'lengths')
     run_sharded(ctx, 'C02', 'huge')
     ctx.exhaustive['payload lengths 1..N for every configuration class'] = True
